@@ -4,6 +4,7 @@ laspy/header.py, laspy/lib.py, laspy/lasreader.py, laspy/lasmmap.py -> coq/Gen/G
 Fail-closed: a statement that is not of the expected shape is an Untranslatable (the check then reports the
 generated definition as missing and the obligations that use it no longer build)."""
 import ast
+import copy
 
 import py2v
 from py2v import Out, Untranslatable, find_class, find_func, parse
@@ -34,6 +35,92 @@ def _calls(fn, text):
 def _require(cond, what):
     if not cond:
         raise Untranslatable(what)
+
+
+def _strip_doc(body):
+    body = list(body)
+    if body and isinstance(body[0], ast.Expr) and isinstance(body[0].value, ast.Constant) and isinstance(body[0].value.value, str):
+        body = body[1:]
+    return body
+
+
+def _subst(node, env):
+    """copy of node in which every loaded name bound in env is replaced by its (pure) expression"""
+    class T(ast.NodeTransformer):
+        def visit_Name(self, n):
+            if isinstance(n.ctx, ast.Load) and n.id in env:
+                return copy.deepcopy(env[n.id])
+            return n
+    return T().visit(copy.deepcopy(node))
+
+
+def _chain_assign(node, target):
+    """`if t1: ..; target = e1 elif t2: ..; target = e2 else: ..; target = e3` -> [(t1, pre1, e1), (t2, pre2, e2), (None, pre3, e3)]"""
+    out = []
+    while True:
+        last = node.body[-1]
+        _require(isinstance(last, ast.Assign) and [_norm(t) for t in last.targets] == [target], f"branch does not end with `{target} = ..`")
+        out.append((node.test, node.body[:-1], last.value))
+        if len(node.orelse) == 1 and isinstance(node.orelse[0], ast.If):
+            node = node.orelse[0]
+            continue
+        _require(node.orelse, f"`{target}` is not bound on every path")
+        last = node.orelse[-1]
+        _require(isinstance(last, ast.Assign) and [_norm(t) for t in last.targets] == [target], f"else branch does not end with `{target} = ..`")
+        out.append((None, node.orelse[:-1], last.value))
+        return out
+
+
+def _chain_return(stmts):
+    """`if t1: ..; return e1` [`elif`/fall through] .. `..; return e3` -> the same decision list"""
+    out = []
+    stmts = _strip_doc(stmts)
+    while True:
+        _require(stmts, "helper falls off its end")
+        s = stmts[0]
+        if isinstance(s, ast.If) and s.body and isinstance(s.body[-1], ast.Return) and s.body[-1].value is not None:
+            out.append((s.test, s.body[:-1], s.body[-1].value))
+            if s.orelse:
+                _require(len(stmts) == 1, "statements after an if/else of returns")
+                stmts = s.orelse
+            else:
+                stmts = stmts[1:]
+            continue
+        last = stmts[-1]
+        _require(isinstance(last, ast.Return) and last.value is not None, "helper does not end with `return ..`")
+        out.append((None, stmts[:-1], last.value))
+        return out
+
+
+def _dispatch(mod, body, target):
+    """the decision list [(test | None, statements before, value)] by which the statements `body` bind `target`: either an
+    if/elif/else chain of assignments, or `target = helper(simple arguments)` with a module level helper made of returns
+    (looked through: its parameters are replaced by the arguments)"""
+    binders = [s for s in body if any(isinstance(n, ast.Name) and n.id == target and isinstance(n.ctx, ast.Store) for n in ast.walk(s))]
+    _require(len(binders) == 1, f"`{target}` is bound by {len(binders)} statements")
+    s = binders[0]
+    if isinstance(s, ast.If):
+        return _chain_assign(s, target)
+    _require(isinstance(s, ast.Assign) and [_norm(t) for t in s.targets] == [target] and isinstance(s.value, ast.Call)
+             and isinstance(s.value.func, ast.Name), f"`{target}` is neither bound by an if chain nor by a helper call: {_norm(s)[:80]}")
+    call = s.value
+    defs = [n for n in mod.body if isinstance(n, ast.FunctionDef) and n.name == call.func.id]
+    _require(len(defs) == 1 and not defs[0].decorator_list, f"helper {call.func.id} is not a plain module level function")
+    h = defs[0]
+    a = h.args
+    _require(not (a.vararg or a.kwarg or a.posonlyargs or a.kwonlyargs or a.defaults), f"helper {h.name}: signature not understood")
+    params = [p.arg for p in a.args]
+    _require(not any(isinstance(x, ast.Starred) for x in call.args) and all(k.arg for k in call.keywords), f"helper {h.name}: star arguments")
+    env = dict(zip(params, call.args))
+    for k in call.keywords:
+        _require(k.arg in params and k.arg not in env, f"helper {h.name}: argument {k.arg}")
+        env[k.arg] = k.value
+    _require(sorted(env) == sorted(params) and len(call.args) <= len(params), f"helper {h.name}: arguments do not match the parameters")
+    _require(all(isinstance(v, (ast.Name, ast.Constant)) for v in env.values()), f"helper {h.name}: an argument is not a name or a constant")
+    for n in [m for b in h.body for m in ast.walk(b)]:
+        _require(not isinstance(n, (ast.Global, ast.Nonlocal, ast.Yield, ast.YieldFrom, ast.Await, ast.FunctionDef, ast.Lambda)), f"helper {h.name}: {type(n).__name__}")
+        _require(not (isinstance(n, ast.Name) and isinstance(n.ctx, (ast.Store, ast.Del)) and n.id in params), f"helper {h.name} rebinds a parameter")
+    return [(None if t is None else _subst(t, env), [_subst(p, env) for p in pre], _subst(v, env)) for t, pre, v in _chain_return(h.body)]
 
 
 def gen(repo):
@@ -129,14 +216,68 @@ def gen(repo):
     def vlr_reads():
         vmod = parse(repo, "laspy/vlrs/vlrlist.py")
         f = find_func(find_class(vmod, "VLRList"), "read_from", decorator="classmethod")
-        direct = len(_calls(f, "data_stream.read"))
-        strings = len([n for n in _calls(f, "read_string") if _norm(n.args[0]) == "data_stream"])
-        others = [n for n in ast.walk(f) if isinstance(n, ast.Call) and isinstance(n.func, ast.Attribute)
-                  and _norm(n.func.value) == "data_stream" and n.func.attr != "read"]
-        _require(not others, "VLRList.read_from calls something else than data_stream.read")
-        # two of the direct reads are alternatives (record length, extended or not): one is executed
-        _require("if extended:" in _norm(f), "extended switch")
-        return f"Definition vlr_reads_per_record : Z := {direct - 1 + strings}.\n"
+        params = [a.arg for a in f.args.args]
+        _require(len(params) == 4 and params[3] == "extended", f"VLRList.read_from{tuple(params)}")
+        st = params[1]
+        # every use of the stream is `<st>.read(..)` or `read_string(<st>, ..)`: one sequential read each
+        reads = set()
+        for n in ast.walk(f):
+            if isinstance(n, ast.Call) and _norm(n.func) == f"{st}.read":
+                reads.add(id(n.func.value))
+            elif isinstance(n, ast.Call) and _norm(n.func) == "read_string" and n.args and _norm(n.args[0]) == st:
+                reads.add(id(n.args[0]))
+        for n in ast.walk(f):
+            if isinstance(n, ast.Name) and n.id == st:
+                _require(id(n) in reads, f"VLRList.read_from uses {st} otherwise than {st}.read(..) / read_string({st}, ..)")
+
+        def flag(test, ext):
+            """value of a test over the known flag `extended` (None: not understood)"""
+            if isinstance(test, ast.Name) and test.id == "extended":
+                return ext
+            if isinstance(test, ast.UnaryOp) and isinstance(test.op, ast.Not):
+                v = flag(test.operand, ext)
+                return None if v is None else not v
+            return None
+
+        def expr(n, ext):
+            """number of reads made by evaluating n (every sub-expression is evaluated exactly once, conditional
+            expressions are resolved on the flag)"""
+            if id(n) in reads:
+                return 1
+            if isinstance(n, ast.IfExp):
+                v = flag(n.test, ext)
+                if v is None:
+                    _require(not any(id(m) in reads for m in ast.walk(n)), f"a read under a condition that is not understood: {_norm(n.test)}")
+                    return 0
+                return expr(n.body if v else n.orelse, ext)
+            if isinstance(n, (ast.BoolOp, ast.Lambda, ast.ListComp, ast.SetComp, ast.DictComp, ast.GeneratorExp)):
+                _require(not any(id(m) in reads for m in ast.walk(n)), f"a read that is not executed exactly once: {_norm(n)[:60]}")
+                return 0
+            return sum(expr(c, ext) for c in ast.iter_child_nodes(n))
+
+        def block(stmts, ext):
+            total = 0
+            for s in stmts:
+                if isinstance(s, ast.If):
+                    v = flag(s.test, ext)
+                    if v is None:
+                        _require(not any(id(m) in reads for m in ast.walk(s)), f"a read under a condition that is not understood: {_norm(s.test)}")
+                        continue
+                    total += block(s.body if v else s.orelse, ext)
+                elif isinstance(s, (ast.Assign, ast.AnnAssign, ast.AugAssign, ast.Expr)):
+                    total += expr(s, ext)
+                else:
+                    _require(not any(id(m) in reads for m in ast.walk(s)), f"a read inside {_norm(s)[:60]}")
+            return total
+
+        loops = [s for s in f.body if isinstance(s, ast.For)]
+        _require(len(loops) == 1 and _norm(loops[0].iter) == f"range({params[2]})" and not loops[0].orelse,
+                 "one loop over range(num_to_read)")
+        for s in f.body:
+            _require(s is loops[0] or not any(id(m) in reads for m in ast.walk(s)), "a read outside the loop over the records")
+        per = {ext: block(loops[0].body, ext) for ext in (True, False)}
+        _require(per[True] == per[False], f"number of reads per record depends on extended: {per}")
+        return f"Definition vlr_reads_per_record : Z := {per[True]}.\n"
     o.add("vlr_reads", vlr_reads)
 
     def open_las():
@@ -144,15 +285,13 @@ def gen(repo):
         f = find_func(lmod, "open_las")
         top = [s for s in f.body if isinstance(s, ast.If)]
         _require(len(top) == 1 and _norm(top[0].test) == "mode == 'r'", "open_las: mode == 'r' branch first")
-        ifs = [s for s in top[0].body if isinstance(s, ast.If) and "isinstance(source" in _norm(s.test)]
-        _require(len(ifs) == 1, "source normalisation chain")
-        a = ifs[0]
-        _require(_norm(a.test) == "isinstance(source, (str, Path))" and _norm(a.body[0]) == "stream = open(source, mode='rb', closefd=closefd)",
-                 "path sources are opened in 'rb' mode")
-        b = a.orelse[0]
-        _require(isinstance(b, ast.If) and _norm(b.test) == "isinstance(source, bytes)" and _norm(b.body[0]) == "stream = io.BytesIO(source)",
-                 "bytes sources are wrapped in a BytesIO")
-        _require([_norm(s) for s in b.orelse] == ["stream = source"], "any other source is used as it is")
+        disp = _dispatch(lmod, [s for s in top[0].body if not isinstance(s, ast.Try)], "stream")
+        _require(all(not pre for _, pre, _ in disp) and len(disp) == 3, "source normalisation chain")
+        got = [(None if t is None else _norm(t), _norm(v)) for t, _, v in disp]
+        _require(got[0] == ("isinstance(source, (str, Path))", "open(source, mode='rb', closefd=closefd)"),
+                 f"path sources are opened in 'rb' mode: {got[0]}")
+        _require(got[1] == ("isinstance(source, bytes)", "io.BytesIO(source)"), f"bytes sources are wrapped in a BytesIO: {got[1]}")
+        _require(got[2] == (None, "source"), f"any other source is used as it is: {got[2]}")
         src = _norm(top[0])
         _require("return LasReader(stream, closefd=closefd, laz_backend=laz_backend, read_evlrs=read_evlrs, decompression_selection=decompression_selection)" in src,
                  "LasReader gets the stream and read_evlrs")
